@@ -505,3 +505,6 @@ _quick("C07", "C08_valappend", "(also under C08) a log of valued records, restar
 _quick("C06", "C06_race", "a hold with E = 3 s; in the deadline tick, right before the k-th acquisition of the key's mutex (k = 1..4, vfLockHook) its holder's re-entrant re-lock, or an update with a changed Count, comes in and is answered as a success: the period has restarted — the hold is still there after the tick, draws no EXPRIED before E has passed again, and ends by E + 2 s after the renewal", [], reach=["renewed-in-the-deadline-tick"], native=False)
 
 CHECKS["C14"]["harnesses"].append(dict(pkg="protocol", name="C14_properties", bound="the property block of a value frame: a SET frame built by NewLockCommandDataSetDataWithProperty with 1..3 properties (symbolic codes, values of 0..2 symbolic bytes each) and a value of 0..2 symbolic bytes, read back through LockResultCommandData.GetDataProperties / GetDataProperty / GetBytesValue: the same properties in order (empty values included, wherever they stand) and the same value", flags=["-witness", "20"], reach=["end"]))
+
+_quick("C15", "C11_value", "(also under C11) a value operation carried by an ack-required lock, taken at once or granted from the wait queue: if the acknowledgement fails the register holds the value from before (a refused request leaves it unchanged) and the next holder is shown that value; if it succeeds the reply carries the value from before the operation", ["-witness", "20"], reach=["end"])
+_quick("C17", "C06_longrecycle", "(also under C06) long-expiry buckets emptied by releases and recycled: every program of 6 events, then the clock runs until every deadline is 3 s past: every hold has ended, LockedCount is back to 0 (a hold the sweep never pops is never reclaimed)", ["-witness", "50"], reach=["end"])
